@@ -410,6 +410,8 @@ def main(tier, seed):
             rep.violation('model:' + m['kind'], '%s (N=%d) differs from the proved model FwdDrivers.v' % (m['kind'], m['N']), dict(kind='model', case=m, coq_term=t[:3000]))
     if bad or logs:
         rep.violation('corr:uneval', 'correspondence corr.C09 could not be evaluated for %d cases' % bad, dict(kind='correspondence', name='corr.C09', log=logs[:3]), no_input=True)
+    import r10
+    r10.c09_point_layouts(rep, ap, rng, tier)
     return rep.finish()
 
 
